@@ -45,11 +45,7 @@ def overflow_discharge(F, fn, site):
     if ("Add" in kind or "Sub" in kind) and len(vals) == 2 and vals[1] == 1 and "Sub" not in kind:
         return "counter += 1: bounded by the number of items actually parsed from the input"
     # guarded subtraction / addition: an enclosing condition orders the operands (HIR)
-    body = fn.get("body")
-    if body is None:
-        # closure: its HIR lives inside the parent body
-        parent = F.by_path.get(fn.get("parent") or "", [None])[0]
-        body = parent.get("body") if parent else None
+    body, _owner = _hir_body(F, fn)
     if body is None:
         return None
     sp = site["sp"]
@@ -261,13 +257,53 @@ def _field_writes_size_like(F, owner, other):
     return True, nw
 
 
+_CTX = [0]      # which inline site of a new helper the discharges currently look at (see _all_contexts)
+
+
+def _all_contexts(F, fn, f):
+    """evaluate discharge `f` in every context the function's code runs in: once for an ordinary function, once per call
+    site for a helper that was extracted from recorded functions; every context must discharge (the first reason is kept)"""
+    if fn.get("kind") == "Closure" and fn.get("body") is None:
+        fn = F.by_path.get(fn.get("parent") or "", [fn])[0]
+    n = len(getattr(F, "inline_sites", {}).get(fn["path"], [])) if fn.get("is_new_helper") else 0
+    if n == 0:
+        _CTX[0] = 0
+        return f()
+    # a proof inside the helper's own body holds in every context; only otherwise look at the contexts it is inlined into
+    try:
+        _CTX[0] = -1
+        w = f()
+    finally:
+        _CTX[0] = 0
+    if w:
+        return w
+    why = None
+    try:
+        for i in range(n):
+            _CTX[0] = i
+            w = f()
+            if not w:
+                return None
+            why = why or w
+    finally:
+        _CTX[0] = 0
+    return "%s (in each of %d call contexts)" % (why, n)
+
+
 def _hir_body(F, fn):
-    body = fn.get("body")
-    if body is None:
+    # a helper extracted from a recorded function is judged where it was inlined (vlib/canon.py): guards that the caller
+    # establishes before the call count; with several call sites the first is used and the others must agree (see _contexts)
+    if fn.get("body") is None and fn.get("kind") == "Closure":
+        # closure: its HIR lives inside the parent body
         parent = F.by_path.get(fn.get("parent") or "", [None])[0]
-        body = parent.get("body") if parent else None
-        return body, parent
-    return body, fn
+        if parent is None:
+            return None, None
+        fn = parent
+    if fn.get("is_new_helper") and _CTX[0] >= 0 and getattr(F, "inline_sites", {}).get(fn["path"]):
+        sites_ = F.inline_sites[fn["path"]]
+        rf, _inl = sites_[min(_CTX[0], len(sites_) - 1)]
+        return rf["body"], rf
+    return fn.get("body"), fn
 
 
 def _strip_val(e):
@@ -531,7 +567,7 @@ def _callers_start_in_step(F, owner, in_, iv, depth):
                 return False
             if x.get("k") == "MethodCall" and x["method"] in _MUTATORS and peel(x["recv"]).get("res", {}).get("hid") == h:
                 return False
-            if x.get("k") in ("Call", "MethodCall") and _nogen(x.get("callee") or "") not in fwd:
+            if x.get("k") in ("Call", "MethodCall") and _nogen(x.get("callee") or "") not in fwd and "inlined" not in x:
                 for a2 in x.get("args", []):
                     if a2.get("k") == "AddrOf" and a2.get("mut") and peel(a2["a"]).get("res", {}).get("hid") == h:
                         return False
@@ -574,6 +610,25 @@ def _callers_start_in_step(F, owner, in_, iv, depth):
     return nsites
 
 
+def _walk_not_inlined_of(node, path):
+    """walk, but do not descend into copies of function `path` that were attached to its call sites (vlib/canon.py):
+    what the function does is judged in the function itself"""
+    stack = [node]
+    while stack:
+        n = stack.pop()
+        if isinstance(n, dict):
+            if n.get("k") == "Inlined" and n.get("of") == path:
+                continue
+            yield n
+            for v in reversed(list(n.values())):
+                if isinstance(v, (dict, list)):
+                    stack.append(v)
+        elif isinstance(n, list):
+            for v in reversed(n):
+                if isinstance(v, (dict, list)):
+                    stack.append(v)
+
+
 def _entry_in_step(F, owner, n_pp, v_pp):
     """The counter/vector pair is in step when the owner is entered: for parameters, every caller passes `&mut` locals
     initialised to 0 / an empty vector and touches them in no other way than through this callee; for fields of a struct,
@@ -594,7 +649,7 @@ def _entry_in_step(F, owner, n_pp, v_pp):
         for g in F.fns:
             if g.get("body") is None or g is owner:
                 continue
-            for x in walk(g["body"]):
+            for x in _walk_not_inlined_of(g["body"], owner["path"]):
                 if x.get("k") in ("Assign", "AssignOp"):
                     l = _strip_val(x["lhs"])
                     while isinstance(l, dict) and l.get("k") == "Index":
@@ -764,7 +819,7 @@ def nopanic(F, roots=None, rule="R-NOPANIC", title=None, prop_label="parse"):
             # ---- guard idioms ------------------------------------------------
             if kind.startswith("assert:Overflow"):
                 dbg += 1
-                why = overflow_discharge(F, fn, s) or accumulation_discharge(F, fn, s)
+                why = _all_contexts(F, fn, lambda: overflow_discharge(F, fn, s) or accumulation_discharge(F, fn, s))
                 if why:
                     r.ob(True, {"site": key, "discharged_by": why})
                     continue
@@ -774,8 +829,8 @@ def nopanic(F, roots=None, rule="R-NOPANIC", title=None, prop_label="parse"):
                 if ln is not None and ix is not None and ix < ln:
                     r.ob(True, {"site": key, "discharged_by": "constant index %d < constant length %d" % (ix, ln)})
                     continue
-            if kind.startswith(("call:Index", "call:IndexMut")):
-                why = coupled_last_index(F, fn, s) or index_in_step(F, fn, s)
+            if kind.startswith(("call:Index", "call:IndexMut")) or kind == "assert:BoundsCheck":
+                why = _all_contexts(F, fn, lambda: coupled_last_index(F, fn, s) or index_in_step(F, fn, s))
                 if why:
                     r.ob(True, {"site": key, "discharged_by": why})
                     continue
